@@ -17,6 +17,7 @@ import (
 	"math"
 	"os"
 	"os/exec"
+	"runtime"
 	"strings"
 	"sync"
 	"time"
@@ -53,27 +54,33 @@ type progIn struct {
 }
 
 type progOut struct {
-	ID      int           `json:"id"`
-	Emits   []interface{} `json:"emits"`
-	Outcome []interface{} `json:"outcome"`
-	Polls   int           `json:"polls"`
-	Snaps   []interface{} `json:"snaps,omitempty"`
-	After   int           `json:"after,omitempty"` // polls observed after the fault/cancel point
+	ID          int           `json:"id"`
+	Emits       []interface{} `json:"emits"`
+	Outcome     []interface{} `json:"outcome"`
+	Polls       int           `json:"polls"`
+	Snaps       []interface{} `json:"snaps,omitempty"`
+	After       int           `json:"after,omitempty"`       // polls observed after the fault/cancel point
+	CancelSp    int           `json:"cancelsp,omitempty"`    // call depth (main thread) at the cancelling poll
+	CancelEmits int           `json:"cancelemits,omitempty"` // emit events before the cancelling poll
 }
 
 // ---- deterministic context -------------------------------------------------
 
 type detCtx struct {
-	mu       sync.Mutex
-	polls    int
-	budget   int
-	fault    *progFault
-	fired    bool
-	after    int
-	closed   chan struct{}
-	reason   error
-	callback []func()
-	onPoll   func(n int)
+	mu        sync.Mutex
+	polls     int
+	budget    int
+	fault     *progFault
+	fired     bool
+	after     int
+	closed    chan struct{}
+	open      chan struct{}
+	cancelled bool
+	timedOut  bool
+	onCancel  func()
+	reason    error
+	callback  []func()
+	onPoll    func(n int)
 }
 
 type detErr struct{ msg string }
@@ -81,7 +88,7 @@ type detErr struct{ msg string }
 func (e detErr) Error() string { return e.msg }
 
 func newDetCtx(budget int, fault *progFault) *detCtx {
-	c := &detCtx{budget: budget, fault: fault, closed: make(chan struct{})}
+	c := &detCtx{budget: budget, fault: fault, closed: make(chan struct{}), open: make(chan struct{})}
 	close(c.closed)
 	return c
 }
@@ -94,23 +101,23 @@ func (c *detCtx) Err() error {
 	return c.reason
 }
 
-func (c *detCtx) fire(reason string) {
+// fire marks the context done for good; it returns the callbacks registered by
+// child contexts, which the caller must run AFTER releasing c.mu (they call Err()).
+func (c *detCtx) fire(reason string) []func() {
 	// c.mu held
 	if c.reason == nil {
 		c.reason = detErr{reason}
 	}
 	cbs := c.callback
 	c.callback = nil
-	for _, f := range cbs {
-		f()
-	}
+	return cbs
 }
 
 // AfterFunc lets context.WithCancel(parent) register synchronously (no goroutine).
 func (c *detCtx) AfterFunc(f func()) func() bool {
 	c.mu.Lock()
 	defer c.mu.Unlock()
-	if c.reason != nil && c.fired && c.fault != nil && c.fault.Mode == "cancel" {
+	if c.cancelled {
 		f()
 		return func() bool { return false }
 	}
@@ -119,8 +126,25 @@ func (c *detCtx) AfterFunc(f func()) func() bool {
 }
 
 func (c *detCtx) Done() <-chan struct{} {
+	ch, cbs := c.poll()
+	for _, f := range cbs {
+		f()
+	}
+	return ch
+}
+
+func (c *detCtx) poll() (<-chan struct{}, []func()) {
 	c.mu.Lock()
 	defer c.mu.Unlock()
+	// Only the dispatch poll of the VM main loop is a fault/cancel point and is
+	// counted; other callers (context.WithCancel in NewThread, channel
+	// operations) just observe the current cancellation state.
+	if pc, _, _, ok := runtime.Caller(2); !ok || !strings.HasSuffix(runtime.FuncForPC(pc).Name(), "mainLoopWithContext") {
+		if c.cancelled {
+			return c.closed, nil
+		}
+		return c.open, nil
+	}
 	c.polls++
 	if c.onPoll != nil {
 		c.onPoll(c.polls)
@@ -131,25 +155,27 @@ func (c *detCtx) Done() <-chan struct{} {
 			if c.polls == c.fault.K {
 				c.fired = true
 				c.reason = detErr{"verif-fault"}
-				return c.closed
+				return c.closed, nil
 			}
 		case "cancel":
 			if c.polls >= c.fault.K {
 				if c.fired {
 					c.after++
+				} else if c.onCancel != nil {
+					c.onCancel()
 				}
 				c.fired = true
-				c.fire("verif-cancel")
-				return c.closed
+				c.cancelled = true
+				return c.closed, c.fire("verif-cancel")
 			}
 		}
 	}
 	if c.budget > 0 && c.polls > c.budget {
 		c.fired = true
-		c.fire("verif-budget")
-		return c.closed
+		c.cancelled = true
+		return c.closed, c.fire("verif-budget")
 	}
-	return nil
+	return c.open, nil
 }
 
 // ---- value tokens with first-appearance identity ------------------------------
@@ -218,6 +244,23 @@ func runProgram(p progIn) (res progOut) {
 	if p.Opts == nil || !p.Opts.NoContext {
 		L.SetContext(ctx)
 	}
+	// wall-clock safety net (loops inside coroutines are not seen by the poll budget)
+	wd := time.AfterFunc(6*time.Second, func() {
+		ctx.mu.Lock()
+		ctx.timedOut = true
+		ctx.fired = true
+		ctx.cancelled = true
+		cbs := ctx.fire("verif-budget")
+		ctx.mu.Unlock()
+		for _, f := range cbs {
+			f()
+		}
+	})
+	defer wd.Stop()
+	ctx.onCancel = func() {
+		res.CancelSp = L.VerifSnapshot().Sp
+		res.CancelEmits = len(res.Emits)
+	}
 	L.SetGlobal("emit", L.NewFunction(func(L *lua.LState) int {
 		n := L.GetTop()
 		vs := make([]lua.LValue, n)
@@ -285,7 +328,7 @@ func runProgram(p progIn) (res progOut) {
 		res.Snaps = append(res.Snaps, snapRecord(L, -1, "go-after"))
 	}
 	if err != nil {
-		if ctx.fired && ctx.reason != nil && ctx.reason.Error() == "verif-budget" {
+		if ctx.timedOut || (ctx.fired && ctx.reason != nil && ctx.reason.Error() == "verif-budget") {
 			res.Outcome = []interface{}{"budget"}
 			return
 		}
